@@ -642,6 +642,35 @@ pub fn run_c16(ctx: &mut Ctx) {
     ctx.rule = "random accepted programs from the rich generator (impl and vftable functions with 1-in-5 explicit conventions, inheritance, placeholders) plus the exhaustive product {no attribute + 7 conventions} x {&self,&mut self,no receiver} x chain depth 1..3 x widths {4,8}: every emitted vftable slot type and address-bound wrapper fn-pointer must carry the declared convention or the default (thiscall with receiver, system without; placeholders thiscall); misspelt convention names must be rejected; the emitted struct definitions (un-normalised ABI strings) must be accepted by nightly rustc for i686-pc-windows-msvc. non-trivial = accepted case with an explicit convention or a default reached through inheritance; distinct by structural hash".into();
     let n = ctx.tier.pick(1500, 30_000);
     let mut inputs = gen_inputs(ctx.seed, n, 0x1600_0000, |_| {});
+    // several impl blocks for one type, one of them with a calling_convention attribute on the
+    // BLOCK (which means nothing): the functions keep their own conventions and defaults
+    {
+        let mut rng = Rng::derive(ctx.seed, 0x16BB);
+        let mut split = 0u64;
+        for (k, (_, mods, _)) in inputs.iter_mut().enumerate() {
+            if k % 3 != 1 {
+                continue;
+            }
+            for (_, m) in mods.iter_mut() {
+                if let Some(pos) = m.impls.iter().position(|b| b.functions.len() >= 2) {
+                    let blk = m.impls.remove(pos);
+                    let cut = rng.range(1, blk.functions.len() - 1);
+                    let mut a = FunctionBlock::new(blk.name.as_str(), blk.functions[..cut].to_vec());
+                    let mut b = FunctionBlock::new(blk.name.as_str(), blk.functions[cut..].to_vec());
+                    let cc = Attribute::calling_convention(*rng.pick(&["cdecl", "stdcall", "fastcall", "C"]));
+                    if rng.coin() {
+                        a.attributes = Attributes(vec![cc]);
+                    } else {
+                        b.attributes = Attributes(vec![cc]);
+                    }
+                    m.impls.push(a);
+                    m.impls.push(b);
+                    split += 1;
+                }
+            }
+        }
+        ctx.count("types_with_two_impl_blocks_and_a_block_attribute", split);
+    }
     for ptrw in [4usize, 8] {
         let ex = c16_exhaustive(ptrw, inputs.len());
         ctx.count("exhaustive_convention_cases", ex.len() as u64);
